@@ -1,7 +1,10 @@
 import PenneModel.Gen.Linkage
+import PenneModel.Gen.AddressSound
 /-
-  C03 — every successful compilation yields valid LLVM IR.  Property theorems (symbol visibility only; the validity
-  of the instruction stream is decided by LLVM's own assembler and verifier in the correspondence run).
+  C03 — every successful compilation yields valid LLVM IR.  Property theorems: symbol visibility and calling
+  conventions, and the well-typedness of every address computation (`generate_storage_address`: the getelementptr / load /
+  extractvalue instructions of an access path).  The validity of the rest of the instruction stream is decided by LLVM's own
+  assembler and verifier in the correspondence run.
 -/
 namespace Gen
 
@@ -25,3 +28,43 @@ theorem private_fast (f : Flags) (h : linkage f = .privateL) (he : f.ext = false
   cases p <;> cases m <;> cases fw <;> simp_all [linkage, callconv]
 
 end Gen
+
+namespace Gen.Addr
+open Types Types.Ty
+
+theorem typed_of_run {fs : Fields} {ty : LTy} {idx : List Idx} {imm : Bool} {steps : List GStep} {a : LTy}
+    (h : run fs ty idx imm steps = some a) : ∃ ops, runT fs ty idx imm steps = some (ops, a) := by
+  rw [← runT_snd] at h
+  cases hr : runT fs ty idx imm steps with
+  | none => rw [hr] at h; simp at h
+  | some x =>
+    obtain ⟨ops, b⟩ := x
+    rw [hr] at h
+    simp only [Option.map_some, Option.some.injEq] at h
+    exact ⟨ops, by rw [h]⟩
+
+/-- **every access to a variable or global is addressed by well-typed instructions**: for a variable of any well-formed
+    type and any path of `[index]` and `.member` steps the typer elaborates on it — through arrays, structures, words,
+    pointers (to arrays, endless arrays, structures, pointers…), nested to any depth — the instructions that
+    `generate_storage_address` builds are all accepted by LLVM's typing of getelementptr / load / extractvalue, and the
+    address they end in is a pointer to the lowering of the accessed type -/
+theorem variable_access_well_typed (ms : Members) (hms : ∀ i m mt, ms i m = some mt → WF false mt = true)
+    (t : Ty) (ht : VarTy t = true) (p : List UStep) (steps : List GStep) (leaf : Ty)
+    (h : elaborateG ms t p = some (steps, leaf)) :
+    ∃ ops, runT (lowerFields ms) (.ptr (lower t)) [some 0] false steps = some (ops, .ptr (lower leaf)) :=
+  typed_of_run (local_address_typed ms hms t ht p steps leaf h)
+
+/-- **and so is every access through a parameter** that is passed as an address or as a slice (a pointer, a view, `[]T`,
+    `&[]T`): the base is the LLVM parameter itself, and the loop treats it as "not really a pointer" (F49, F70) -/
+theorem parameter_access_well_typed (ms : Members) (hms : ∀ i m mt, ms i m = some mt → WF false mt = true)
+    (t : Ty) (ht : ParamTy t = true) (u : UStep) (rest : List UStep) (steps : List GStep) (leaf : Ty)
+    (h : elaborateG ms t (u :: rest) = some (steps, leaf)) :
+    ∃ ops, runT (lowerFields ms) (lower t) [] true steps = some (ops, .ptr (lower leaf)) :=
+  typed_of_run (param_address_typed ms hms t ht u rest steps leaf h)
+
+/-- the steps are the ones of the typer's elaboration, about which C01 proves that the typer accepts them -/
+theorem steps_are_the_typers (ms : Members) (p : List UStep) (t : Ty) :
+    (elaborateG ms t p).map (fun r => (r.1.map erase, r.2)) = elaborate ms t p :=
+  elaborateG_erase ms p t
+
+end Gen.Addr
